@@ -1,5 +1,8 @@
 //! Operation-sequence differential for the flat multi-version account encoding (C08 / C09).
-//! usage: flat <seed> <count> <outdir> [only_index]
+//! usage: flat seq|prop <seed> <count> <outdir> [only_index]
+//! `prop`: in-order blocks published through the real IncarnationDb, every read compared with stock
+//! revm `State` after committing the same finalised states (the model-independent property oracle);
+//! writes <outdir>/prop.fail.
 //! Writes <outdir>/flat.in (commands, the model's input) and <outdir>/flat.impl (what the REAL
 //! IncarnationDb / MVMemory / Beneficiary returned, one line per command that has an output).
 //! Every random choice derives from <seed>; case i is reproducible from (seed, i).
@@ -705,10 +708,237 @@ fn one_case(idx: u64, rng: &mut Rng, inp: &mut String, out: &mut String, st: &mu
     writeln!(inp, "end").unwrap();
 }
 
+// ------------------------------------------------------------------------------ property oracle
+
+/// A finalised account the way revm's journal would hand it over, derived from what the writer read
+/// through the real IncarnationDb (so that the block is in-order consistent whenever the property
+/// holds), obeying revm's invariants: code attached whenever the hash is non-empty, a cleared
+/// delegation bumps the nonce, created accounts start from zeroed storage.
+fn prop_account(
+    rng: &mut Rng,
+    p: &Pools,
+    read: &Option<AccountInfo>,
+    slots_read: &HashMap<U256, U256>,
+    st: &mut BTreeMap<&'static str, u64>,
+) -> Account {
+    let pre = read.clone().unwrap_or_else(|| AccountInfo { code: Some(Bytecode::default()), ..Default::default() });
+    let mut acct = Account::from(pre.clone());
+    let has_code = pre.code_hash != KECCAK_EMPTY;
+    let mut created = false;
+    let mut kind = rng.below(12);
+    if kind >= 8 && kind <= 10 && has_code && !pre.code.as_ref().is_some_and(|c| c.is_eip7702()) {
+        kind = 2; // EIP-7702 only re-points accounts without code or with a delegation
+    }
+    match kind {
+        0 => {
+            *st.entry("load_only").or_default() += 1;
+            return acct;
+        }
+        1 => *st.entry("touch").or_default() += 1,
+        2 => {
+            acct.info.balance = U256::from(rng.range(0, 9));
+            *st.entry("balance").or_default() += 1;
+        }
+        3 => {
+            acct.info.nonce += 1;
+            acct.info.balance = U256::from(rng.range(1, 9));
+            *st.entry("nonce_balance").or_default() += 1;
+        }
+        4 | 5 => {
+            acct.mark_selfdestruct();
+            acct.info.balance = U256::ZERO;
+            if read.is_none() && rng.chance(1, 2) {
+                acct.mark_created();
+                *st.entry("create_destroy_one_tx").or_default() += 1;
+            } else {
+                *st.entry("selfdestruct").or_default() += 1;
+            }
+        }
+        6 | 7 => {
+            // CREATE / CREATE2 onto an address without code (absent, destroyed before, or pre-funded)
+            if has_code {
+                acct.info.balance = U256::from(rng.range(0, 9));
+                *st.entry("balance").or_default() += 1;
+            } else {
+                created = true;
+                acct.mark_created();
+                acct.info.nonce = 1;
+                if rng.chance(4, 5) {
+                    acct.info.set_code(rng.pick(&p.codes[0..2]).clone());
+                    *st.entry("create_code").or_default() += 1;
+                } else {
+                    acct.info.code_hash = KECCAK_EMPTY;
+                    acct.info.code = Some(Bytecode::default());
+                    *st.entry("create_nocode").or_default() += 1;
+                }
+            }
+        }
+        8 | 9 => {
+            // delegation set / re-pointed / set again
+            let c = rng.pick(&p.codes[2..4]).clone();
+            let again = has_code && c.hash_slow() == pre.code_hash;
+            acct.info.set_code(c);
+            acct.info.nonce += 1;
+            *st.entry(if again { "delegate_same" } else if has_code { "repoint" } else { "delegate_set" }).or_default() += 1;
+        }
+        10 => {
+            if has_code {
+                acct.info.code_hash = KECCAK_EMPTY;
+                acct.info.code = Some(Bytecode::default());
+                *st.entry("delegate_clear").or_default() += 1;
+            }
+            acct.info.nonce += 1;
+        }
+        _ => {
+            // drained to empty: EIP-161 deletion when it has no code
+            acct.info.balance = U256::ZERO;
+            if !has_code {
+                acct.info.nonce = 0;
+                *st.entry("empty_touch").or_default() += 1;
+            }
+        }
+    }
+    acct.mark_touch();
+    if !acct.is_selfdestructed() {
+        for _ in 0..rng.below(3) {
+            let s = *rng.pick(&p.slots);
+            let orig = if created { U256::ZERO } else { slots_read.get(&s).copied().unwrap_or(U256::ZERO) };
+            let present = if rng.chance(1, 6) { orig } else { U256::from(rng.range(0, 9)) };
+            acct.storage.insert(s, EvmStorageSlot::new_changed(orig, present, Default::default()));
+        }
+    }
+    acct
+}
+
+fn code_bytes(info: &AccountInfo, by_hash: impl FnOnce(B256) -> Option<Bytecode>) -> String {
+    if info.code_hash == KECCAK_EMPTY {
+        return "-".to_owned();
+    }
+    match &info.code {
+        Some(c) => hcode(&Some(c.clone())),
+        None => hcode(&by_hash(info.code_hash)),
+    }
+}
+
+/// One in-order block; returns the description of the first disagreement with stock revm `State`.
+fn prop_case(idx: u64, rng: &mut Rng, st: &mut BTreeMap<&'static str, u64>, evals: &mut u64) -> Option<String> {
+    use revm::{Database, DatabaseCommit};
+    let p = pools(rng);
+    let ben = Address::with_last_byte(0xbb);
+    let mut base = Base::default();
+    let mut scratch = String::new();
+    for c in &p.codes {
+        base.code.insert(c.hash_slow(), Some(c.clone()));
+    }
+    for a in &p.addrs {
+        let info = match rng.below(5) {
+            0 | 1 => continue,
+            2 => AccountInfo { balance: U256::from(rng.range(0, 9)), nonce: rng.range(0, 3), code_hash: KECCAK_EMPTY, account_id: None, code: None },
+            _ => {
+                let c = rng.pick(&p.codes).clone();
+                let attach = rng.chance(1, 2);
+                AccountInfo { balance: U256::from(rng.range(0, 9)), nonce: 1, code_hash: c.hash_slow(), account_id: None, code: attach.then_some(c) }
+            }
+        };
+        base.accts.insert(*a, Some(Some(info)));
+        for s in &p.slots {
+            if rng.chance(1, 2) {
+                base.stor.insert((*a, *s), Some(U256::from(rng.range(1, 200))));
+            }
+        }
+    }
+    let _ = &mut scratch;
+    let ntx = rng.range(2, 9) as usize;
+    let env = FlatEnv::new(ben, None, ntx + 1);
+    let mut writer = env.db(&base);
+    let mut states: Vec<EvmState> = Vec::new();
+    let mut descr = String::new();
+    for k in 0..ntx {
+        let inc = rng.range(1, 3) as usize;
+        writer.begin(k, inc);
+        let mut state = EvmState::default();
+        for _ in 0..rng.range(1, 2) {
+            let a = *rng.pick(&p.addrs);
+            if state.contains_key(&a) {
+                continue;
+            }
+            let read = writer.basic(a).expect("base never fails");
+            let mut slots_read = HashMap::new();
+            for s in &p.slots {
+                slots_read.insert(*s, writer.storage(a, *s).expect("base never fails"));
+            }
+            state.insert(a, prop_account(rng, &p, &read, &slots_read, st));
+        }
+        writeln!(descr, "tx{k}: {}", print_state(&state)).unwrap();
+        writer.finish(&state);
+        states.push(state);
+    }
+    // sweep against stock revm
+    let mut reference = revm_database::StateBuilder::new().with_database_ref(&base).build();
+    let mut reader = env.db(&base);
+    for t in 0..=ntx {
+        reader.begin(t, 7);
+        for a in &p.addrs {
+            let got = reader.basic(*a).expect("base never fails");
+            let want = reference.basic(*a).expect("reference");
+            *evals += 1;
+            let g = got.as_ref().map(|i| (i.balance, i.nonce, i.code_hash, code_bytes(i, |h| base.code_by_hash_ref(h).ok())));
+            let w = want.as_ref().map(|i| (i.balance, i.nonce, i.code_hash, code_bytes(i, |h| reference.code_by_hash(h).ok())));
+            if g != w {
+                return Some(format!("case {idx} basic({}) at tx {t}: IncarnationDb {:?} in-order revm {:?}\n{descr}", ha(a), g, w));
+            }
+            for s in &p.slots {
+                let got = reader.storage(*a, *s).expect("base never fails");
+                let want = reference.storage(*a, *s).expect("reference");
+                *evals += 1;
+                if got != want {
+                    return Some(format!(
+                        "case {idx} storage({},{:x}) at tx {t}: IncarnationDb {:x} in-order revm {:x}\n{descr}",
+                        ha(a), s, got, want
+                    ));
+                }
+            }
+        }
+        reader.finish(&EvmState::default());
+        if t < ntx {
+            reference.commit(states[t].clone());
+        }
+    }
+    None
+}
+
 fn main() {
     let a: Vec<String> = std::env::args().collect();
-    let (seed, count, outdir) = (a[1].parse::<u64>().unwrap(), a[2].parse::<u64>().unwrap(), &a[3]);
-    let only: Option<u64> = a.get(4).map(|s| s.parse().unwrap());
+    let (mode, seed, count, outdir) =
+        (a[1].as_str(), a[2].parse::<u64>().unwrap(), a[3].parse::<u64>().unwrap(), &a[4]);
+    let only: Option<u64> = a.get(5).map(|s| s.parse().unwrap());
+    fs::create_dir_all(outdir).unwrap();
+    let kv = |m: &BTreeMap<&'static str, u64>| {
+        m.iter().map(|(k, v)| format!("\"{k}\":{v}")).collect::<Vec<_>>().join(",")
+    };
+    if mode == "prop" {
+        let mut rng = Rng::new(seed ^ 0x0DD5);
+        let mut st = BTreeMap::new();
+        let (mut evals, mut fails) = (0u64, String::new());
+        let mut nfail = 0;
+        for i in 0..count {
+            let mut case_rng = rng.fork();
+            if only.is_some_and(|o| o != i) {
+                continue;
+            }
+            if let Some(f) = prop_case(i, &mut case_rng, &mut st, &mut evals) {
+                nfail += 1;
+                if nfail <= 5 {
+                    fails.push_str(&f.replace('\n', " | "));
+                    fails.push('\n');
+                }
+            }
+        }
+        fs::write(format!("{outdir}/prop.fail"), fails).unwrap();
+        println!("{{\"cases\":{count},\"reads_compared\":{evals},\"failed_cases\":{nfail},\"effects\":{{{}}}}}", kv(&st));
+        return;
+    }
+    assert_eq!(mode, "seq", "mode must be seq or prop");
     let mut rng = Rng::new(seed ^ 0xF1A7);
     let (mut inp, mut out) = (String::new(), String::new());
     let mut st = Stats::default();
@@ -719,12 +949,8 @@ fn main() {
         }
         one_case(i, &mut case_rng, &mut inp, &mut out, &mut st);
     }
-    fs::create_dir_all(outdir).unwrap();
     fs::write(format!("{outdir}/flat.in"), inp).unwrap();
     fs::write(format!("{outdir}/flat.impl"), out).unwrap();
-    let kv = |m: &BTreeMap<&'static str, u64>| {
-        m.iter().map(|(k, v)| format!("\"{k}\":{v}")).collect::<Vec<_>>().join(",")
-    };
     println!(
         "{{\"ops\":{{{}}},\"classes\":{{{}}},\"reads_mv\":{},\"reads_base\":{},\"reads_err\":{},\"reads_ben\":{},\"estimate_hits\":{}}}",
         kv(&st.ops),
